@@ -41,6 +41,10 @@ var transSpecs = []transSpec{
 	{"txcache/eviction.go", "TxCache", "areThereTooManySenders", "tooManySenders", "func"},
 	{"txcache/eviction.go", "TxCache", "areThereTooManyTxs", "tooManyTxs", "func"},
 	{"txcache/txListForSender.go", "txListForSender", "isCapacityExceeded", "senderExceeded", "func"},
+	{"txcache/config.go", "ConfigSourceMe", "verify", "txConfigAccepted", "verify"},
+	{"txcache/config.go", "ConfigDestinationMe", "verify", "crossConfigAccepted", "verify"},
+	{"immunitycache/config.go", "CacheConfig", "Verify", "immunityConfigAccepted", "verify"},
+	{"factory/storageUnit.go", "", "NewStorageUnitFromConf", "unitConfRejected", "rejectif"},
 	{"txcache/transactionsHeapItem.go", "transactionsHeapItem", "detectInitialGap", "initialGap", "func"},
 	{"txcache/transactionsHeapItem.go", "transactionsHeapItem", "detectMiddleGap", "middleGap", "func"},
 	{"txcache/transactionsHeapItem.go", "transactionsHeapItem", "detectLowerNonce", "lowerNonce", "func"},
@@ -264,6 +268,13 @@ func (t *translator) stmts(l []ast.Stmt, k string, ret string) string {
 	case *ast.ReturnStmt:
 		if len(x.Results) != 1 {
 			t.fail("return with %d results", len(x.Results))
+		}
+		if ret == "Accepted" {
+			// error-returning validator: `return nil` accepts, any other return value rejects
+			if id, ok := x.Results[0].(*ast.Ident); ok && id.Name == "nil" {
+				return "true"
+			}
+			return "false"
 		}
 		e, _ := t.expr(x.Results[0], ret)
 		return e
@@ -495,6 +506,20 @@ func translateOne(repo string, sp transSpec) (def string, err string) {
 		}
 		lets = append(lets, &ast.ReturnStmt{Results: []ast.Expr{found.Cond}})
 		body = t.stmts(lets, "", "Bool")
+	case sp.mode == "verify":
+		body = t.stmts(fd.Body.List, "", "Accepted")
+		ret = "Bool"
+	case sp.mode == "rejectif":
+		// constructor-style function: the condition of its first `if` whose body returns an error (non-nil last result)
+		for _, st := range fd.Body.List {
+			if is, ok := st.(*ast.IfStmt); ok && is.Init == nil {
+				body, _ = t.expr(is.Cond, "Bool")
+				break
+			}
+		}
+		if body == "" {
+			return "", "no if-statement"
+		}
 	case strings.HasPrefix(sp.mode, "retfield:"):
 		field := strings.TrimPrefix(sp.mode, "retfield:")
 		ret = "Int"
